@@ -97,3 +97,21 @@ Print Assumptions C06_getbulk_order.
 Print Assumptions C06_getbulk_stops.
 Print Assumptions C06_request_bound_getnext.
 Print Assumptions C06_request_bound_getbulk.
+
+(* --- the Python GetBulk iterator (Model/PyLayer.v): the context carries `max_repetitions or default`; a buffered reply is
+   yielded in order up to the end marker, which ends the walk; otherwise the next call issues a new request *)
+From GS Require Import Model.Base Model.Exc Model.Walk Model.PyLayer Proofs.PyLayerProofs.
+Theorem C06_getbulk_context :
+  forall (cfg : pycfg) (fuel : nat) (oid : bytes) (req : option Z) (script : list tok), exists tl : list ev, r_events (run_api cfg fuel (ApiGetBulk oid req) script) = EvIter oid (Some (effective_max_rep req (pc_max_rep cfg))) :: tl.
+Proof. exact getbulk_context. Qed.
+
+Theorem C06_sync_buffer_drained :
+  forall (pol : bool) (l : list (option Z)) (fuel : nat) (script : list tok) (evs : list ev) (items : list Z), (length l < fuel)%nat -> iterate fuel (sync_bulk_next pol) l script evs items = (if has_none l then {| r_events := evs; r_items := rev items ++ before_none l; r_end := PRaise EStopIteration; r_rest := script |} else iterate (fuel - length l) (sync_bulk_next pol) [] script evs (rev (before_none l) ++ items)).
+Proof. exact sync_buffer_drained. Qed.
+
+Check C06_getbulk_context :
+  forall (cfg : pycfg) (fuel : nat) (oid : bytes) (req : option Z) (script : list tok), exists tl : list ev, r_events (run_api cfg fuel (ApiGetBulk oid req) script) = EvIter oid (Some (effective_max_rep req (pc_max_rep cfg))) :: tl.
+Check C06_sync_buffer_drained :
+  forall (pol : bool) (l : list (option Z)) (fuel : nat) (script : list tok) (evs : list ev) (items : list Z), (length l < fuel)%nat -> iterate fuel (sync_bulk_next pol) l script evs items = (if has_none l then {| r_events := evs; r_items := rev items ++ before_none l; r_end := PRaise EStopIteration; r_rest := script |} else iterate (fuel - length l) (sync_bulk_next pol) [] script evs (rev (before_none l) ++ items)).
+Print Assumptions C06_getbulk_context.
+Print Assumptions C06_sync_buffer_drained.
